@@ -200,7 +200,9 @@ final form which might be in the form ('push1&',).
     @property
     def final(self):
         op = self.op.name.lower()
-        if op == 'push' and self.args[0] in (-2, -1, 0, 1, 2):
+        if op == 'push' and self.args[0] in (-2, -1, 0, 1, 2) and \
+           str(self.args[0]) != '-0.0':
+            # (the short forms cannot express a negative zero)
             op = {
                 2: 'push2',
                 1: 'push1',
